@@ -97,7 +97,7 @@ func runWorker(args []string) int {
 	}
 	debug.SetMaxStack(ms << 20)
 	r := &Run{Prop: p, Tier: *tier, Seed: seedFromEnv(), ShardK: k, ShardN: n,
-		tracePath: *trace, outPath: *out, maxViol: 25, Only: *only}
+		tracePath: *trace, outPath: *out, maxViol: 200, Only: *only}
 	if *only == 0 {
 		r.deadline = time.Now().Add(budget(p, *tier))
 	}
